@@ -520,6 +520,25 @@ func (ci *cmpInterp) call(env map[ssa.Value]aval, c *ssa.Call) aval {
 			return aSign{ci.rel(1, a.of, b.of), false}
 		}
 		ci.fail("bytes.Compare on non-id values at %s", ci.p.Pos(c.Pos()))
+	case full == "cmp.Compare" || strings.HasPrefix(full, "cmp.Compare["):
+		// three-way comparison of two times / two exact ints (no overflow possible)
+		if ta, ok := args[0].(aTime); ok {
+			if tb, ok := args[1].(aTime); ok {
+				return aSign{ci.rel(0, ta.of, tb.of), false}
+			}
+		}
+		if ia, ok := args[0].(aInt); ok {
+			if ib, ok := args[1].(aInt); ok {
+				switch {
+				case ia.v < ib.v:
+					return aInt{-1}
+				case ia.v > ib.v:
+					return aInt{1}
+				}
+				return aInt{0}
+			}
+		}
+		ci.fail("cmp.Compare on values outside the vocabulary at %s", ci.p.Pos(c.Pos()))
 	case full == "strings.Compare":
 		a, oka := args[0].(aHashStr)
 		b, okb := args[1].(aHashStr)
